@@ -314,6 +314,19 @@ def write_bam(path, contigs, reads):
                 a.next_reference_id = tid
                 a.next_reference_start = pos
             f.write(a)
+        if reads and len(reads) % 2 == 0:
+            # a tail of unplaced unmapped reads (no contig, no position), where `samtools sort` puts them: a valid
+            # coordinate-sorted BAM; they are never counted (round-4 seed C09-m11: the sortedness pre-check must accept
+            # them). A deterministic function of `reads`, so that shrinking and replays rebuild the same file.
+            for j in range(2):
+                a = pysam.AlignedSegment(f.header)
+                a.query_name = 'unplaced%d' % j
+                a.flag = 0x4
+                a.reference_id = -1
+                a.reference_start = -1
+                a.mapping_quality = 0
+                a.query_sequence = 'A' * 30
+                f.write(a)
     pysam.index(path)
 
 
